@@ -90,6 +90,7 @@ func NewParameterPool[T any](
 				"failed to persist generated parameter: [%w]",
 				err,
 			)
+			return
 		}
 
 		select {
